@@ -25,7 +25,7 @@ def run(ctx):
     depth = 4 if ctx.quick else 5
     subs = ctx.mine(meshdrive.bfs_subtrees())
     meshdrive.bfs(ctx, 'C10', depth, subs)
-    n = ctx.share(200 if ctx.quick else 4000)
+    n = ctx.share(1600 if ctx.quick else 8000)
     strat = meshdrive.history_cases(max_ops=30 if ctx.quick else 60,
                                     allow=('t', 'x', 'tx', 'unif', 'unifx', 'iso', 'aniso', 'grade'))
     explore(ctx, strat, lambda case, rec: meshdrive.run_history(case, rec, 'C10'), n)
